@@ -53,6 +53,8 @@ type c04Case struct {
 	// LagMs (C17 workloads only): the consumer dawdles so long after each of the first blocks - block assembly falls behind the reader
 	LagMs int `json:"lag_ms,omitempty"`
 	// Card: the device number of the (one) active card; IdleCard0: with Card > 0, a card number 0 is installed too but not activated
+	// RelErrAt: the ReleaseBytes call of this number (in the run phase) releases the bytes and reports a driver error all the same
+	RelErrAt  int  `json:"release_error_at,omitempty"`
 	Card      int  `json:"card,omitempty"`
 	IdleCard0 bool `json:"idle_card0,omitempty"`
 }
@@ -157,6 +159,7 @@ type c04Card struct {
 	doneSet  bool
 	idle     chan struct{} // signalled (non-blocking) whenever the card is held and the reader found too little
 	released int          // bytes released in the run phase
+	relCalls int          // ReleaseBytes calls of the run phase
 	relAtLaunch int
 	errMsg   string
 }
@@ -271,6 +274,11 @@ func (k *c04Card) ReleaseBytes(n int) error {
 	}
 	k.rd += n
 	k.released += n
+	k.relCalls++
+	if k.c.RelErrAt > 0 && k.relCalls == k.c.RelErrAt {
+		// the driver moves its read index first and then reports a problem (as the real adapter does): the bytes are released
+		return fmt.Errorf("scripted card: the driver reports an error after releasing %d bytes", n)
+	}
 	return nil
 }
 
@@ -863,6 +871,9 @@ loop:
 	if c.Card > 0 {
 		v.Classes = append(v.Classes, "active-card-is-not-number-0")
 	}
+	if c.RelErrAt > 0 {
+		v.Classes = append(v.Classes, "driver-error-at-a-release")
+	}
 	if len(ext) > 0 {
 		v.Classes = append(v.Classes, "ext-trigger")
 	}
@@ -894,6 +905,9 @@ func c04Gen(t *rapid.T) c04Case {
 	c.Rows = rapid.SampledFrom([]int{2, 3, 4, 5, 8, 16}).Draw(t, "rows")
 	c.Nsamp = rapid.SampledFrom([]int{1, 2, 4, 16}).Draw(t, "nsamp")
 	c.Seed = rapid.IntRange(0, 1<<20).Draw(t, "seed")
+	if rapid.IntRange(0, 4).Draw(t, "relerr") == 0 {
+		c.RelErrAt = rapid.IntRange(1, 6).Draw(t, "relerrat")
+	}
 	if rapid.IntRange(0, 3).Draw(t, "othercard") == 0 {
 		c.Card = rapid.IntRange(1, 3).Draw(t, "card")
 		c.IdleCard0 = rapid.Bool().Draw(t, "idlecard0")
